@@ -825,7 +825,8 @@ class LLMRails:
         # If we have generation options, we prepare a GenerationResponse instance.
         if options:
             # If a prompt was used, we only need to return the content of the message.
-            if prompt:
+            # (the content of a rail exception message is a dict, it is returned as a message)
+            if prompt and not exception:
                 res = GenerationResponse(response=new_message["content"])
             else:
                 res = GenerationResponse(response=[new_message])
